@@ -277,7 +277,12 @@ func parseVerifyErr(msg, jailRoot string) (extra, missing []string) {
 			mode = "missing"
 		case strings.HasPrefix(l, "\t"):
 			p := strings.TrimPrefix(l, "\t")
-			if rel, err := filepath.Rel(jailRoot, p); err == nil {
+			if filepath.IsAbs(p) {
+				if rel, err := filepath.Rel(jailRoot, p); err == nil {
+					p = rel
+				}
+			} else if rel, err := filepath.Rel(filepath.Base(jailRoot), filepath.Clean(p)); err == nil {
+				// the target was handed over relative to the jail's parent directory ("jail//t"): so are the listed paths
 				p = rel
 			}
 			if mode == "extra" {
